@@ -14,13 +14,14 @@
 (*   T_Modified, T_AddedDir (+ generate_sub_created_events when recursive), T_AddedFile, T_Removed,       *)
 (*   T_RemovedSelf;  `last` is the LOCAL variable last_renamed_src_path: reset by every Read.             *)
 (*                                                                                                        *)
-(* Environment switches (the main configs set all of them to FALSE; each *_neg_* config sets one to TRUE  *)
+(* Defect switches (the main configs set both to FALSE; each *_neg_* config sets one to TRUE                *)
 (* and TLC must then find the violation that checks/c20.py also observes on the real emitter):            *)
 (*   SplitPairs     a read may end between RENAMED_OLD_NAME and RENAMED_NEW_NAME            (finding W1)  *)
 (*   StaleStat      an operation may change what os.path.isdir(p) answers for a path p whose ADDED or     *)
 (*                  RENAMED_NEW_NAME record is still untranslated (e.g. a directory created or moved in    *)
 (*                  and immediately renamed: the record is translated when p is gone)       (finding W2)  *)
-(*   B2B            operations may be issued while records are pending (C01 pacing respected)             *)
+(* B2B (not a defect switch, TRUE in every config): operations may be issued while records are pending,   *)
+(* respecting the C01 pacing; WithRoot: the watched root may be removed.                                  *)
 EXTENDS XlatCommon, TLC
 
 CONSTANTS MaxOps, SplitPairs, StaleStat, B2B, WithRoot
